@@ -11,8 +11,9 @@ parser tokens); the arithmetic that turns them into char offsets is what is mode
 * (a) `harper-tree-sitter/src/lib.rs:byte_spans_to_char_spans` (sort, retain, byte→char loop);
 * (b) `harper-core/src/mask/mod.rs` (`push_allowed`, `merge_whitespace_sep`) and
       `harper-core/src/parsers/mask.rs` (`Mask::parse`);
-* (c) `harper-comments/src/comment_parsers/{mod,unit,jsdoc}.rs` (`without_initiators`, the per-line
-      leader stripping of `Unit::parse` / `JsDoc::parse`, `mark_inline_tags`/`parse_inline_tag`);
+* (c) `harper-comments/src/comment_parsers/{mod,unit,jsdoc,javadoc,go}.rs` (`without_initiators`, the per-line
+      leader stripping of `Unit::parse` / `JsDoc::parse`, `mark_inline_tags`/`parse_inline_tag`,
+      `JavaDoc::parse` with its block-tag loop, `Go::parse` with its directive handling);
 * (d) `harper-literate-haskell/src/masker.rs` (bird tracks / `\begin{code}` state machine);
 * (e) `harper-ls/src/git_commit_parser.rs` (cut at the first `#`);
 * (f) `harper-typst/src/offset_cursor.rs:push_to` and the `traversed_bytes/traversed_chars` pair of
@@ -274,6 +275,81 @@ def jsdocLoop (isWs : Char → Bool) (total : Nat) (inner : List Char → List T
 def jsdocParse (isWs : Char → Bool) (src : List Char) (inner : List Char → List Tok) :
     Except Panic (List Tok) :=
   jsdocLoop isWs src.length inner 0 (splitNl src)
+
+
+/-! ## (c2) JavaDoc block tags, Go directives -/
+
+def isAtKind : Kind → Bool
+  | .punct .At => true
+  | _ => false
+
+def isStarKind : Kind → Bool
+  | .punct .Star => true
+  | _ => false
+
+/-- `token.kind = TokenKind::Unlintable` -/
+def unl (t : Tok) : Tok := ⟨t.span, .unlintable⟩
+
+/-- the `@tag argument` window of javadoc.rs: `At, Word, Space, Word` -/
+def tagWindow (a b c d : Tok) : Bool :=
+  isAtKind a.kind && b.kind.isWord && c.kind.isSpace && d.kind.isWord
+
+/-- javadoc.rs: after a `Newline` token, leading `*` and space tokens are collected and removed
+(`remove_indices`); the first other token ends the run and is itself looked at as a newline -/
+def jdStrip : Bool → List Tok → List Tok
+  | _, [] => []
+  | afterNl, t :: ts =>
+    if afterNl && (isStarKind t.kind || t.kind.isSpace) then jdStrip true ts
+    else t :: jdStrip t.kind.isNewline ts
+
+/-- javadoc.rs: `for i in 3..tokens.len()` looks at `tokens[i-3..=i]` of the CURRENT vector and
+marks all four Unlintable on a match. `n` = iterations left, `j = i - 3`; indexing is a panic value -/
+def jdLoop : Nat → Nat → List Tok → Except Panic (List Tok)
+  | 0, _, cur => .ok cur
+  | n + 1, j, cur =>
+    match cur[j]?, cur[j + 1]?, cur[j + 2]?, cur[j + 3]? with
+    | some a, some b, some c, some d =>
+      jdLoop n (j + 1)
+        (if tagWindow a b c d then cur.take j ++ [unl a, unl b, unl c, unl d] ++ cur.drop (j + 4)
+         else cur)
+    | _, _, _, _ => .error .sliceOOB
+
+def javadocMark (toks : List Tok) : Except Panic (List Tok) := jdLoop (toks.length - 3) 0 toks
+
+/-- `JavaDoc::parse`: strip the comment delimiters, HTML-parse the rest (inner), drop leaders,
+shift, mark inline tags, mark block tags -/
+def javadocParse (isWs : Char → Bool) (src : List Char) (inner : List Char → List Tok) :
+    Except Panic (List Tok) := do
+  let a ← withoutInitiators isWs src
+  let c ← a.getContent src
+  let t1 := (jdStrip false (inner c)).map (·.shift a.start)
+  let t2 ← markInlineTags (t1.length + 1) t1 0
+  javadocMark t2
+
+/-- `Span::try_get_content`; `is_empty` computes `end - start`, which underflows when
+`start > end` (overflow checks on) -/
+def tryGetContent {α} (s : Span) (src : List α) : Except Panic (Option (List α)) :=
+  if s.start > s.stop ∨ s.start ≥ src.length ∨ s.stop > src.length then
+    -- after fix `Span::try_get_content no longer underflows on an inverted span` the test is
+    -- `start == end`, not `is_empty()` (whose `len()` underflowed when `start > end`)
+    (if s.stop == s.start then .ok (some []) else .ok none)
+  else .ok (some (slice src s))
+
+/-- `Go::parse`: a comment block that starts with `go:` is cut at the first line break of the
+*source*; the remaining span is then looked up in the already cut `actual_source` -/
+def goParse (isWs : Char → Bool) (src : List Char) (inner : List Char → List Tok) :
+    Except Panic (List Tok) := do
+  let a ← withoutInitiators isWs src
+  let c ← a.getContent src
+  if c.take 3 == ['g', 'o', ':'] then
+    match src.findIdx? (· == '\n') with
+    | none => pure []
+    | some term =>
+      let a' : Span := ⟨a.start + term, a.stop⟩
+      match ← tryGetContent a' c with
+      | none => pure []
+      | some c' => pure ((inner c').map (·.shift a'.start))
+  else pure ((inner c).map (·.shift a.start))
 
 /-! ## (d) Literate Haskell -/
 
